@@ -846,8 +846,8 @@ def gen_cases(tier, seed):
     cases = []
     # ---------------- basis level ----------------
     triples = [(k, m, l) for k in range(1, 5) for m in range(1, 5) for l in range(5)]
-    reps = 1 if quick else 4
-    e_pool = list(range(-20, 21)) * (2 if quick else 8)
+    reps = 1 if quick else 10
+    e_pool = list(range(-20, 21)) * (2 if quick else 20)
     rng.shuffle(e_pool)
     i = 0
     for rep_i in range(reps):
@@ -857,8 +857,6 @@ def gen_cases(tier, seed):
                 if rtype == "segment" and m == 1 and rng.random() < 0.7:
                     continue
                 if rtype == "perm" and k == 1:
-                    continue
-                if quick and rtype in ("perm", "split") and rng.random() < 0.35:
                     continue
                 i += 1
                 sph = rng.random() < 0.5
@@ -885,7 +883,7 @@ def gen_cases(tier, seed):
                                                  model=(i % (6 if quick else 4) == 1)))
     # ---------------- block level ----------------
     km = [(k, m) for k in range(1, 5) for m in range(1, 5)]
-    breps = 1 if quick else 3
+    breps = 1 if quick else 8
     for rep_i in range(breps):
         for (k, m) in km:
             for l in range(5):
